@@ -24,6 +24,9 @@ CONSTANTS Lits,        \* distinct literals (strings)
           Normal,      \* normal mailboxes (strings)
           MaxSteps,    \* length of a generated behaviour
           MaxUid,      \* bound
+          Dedup,       \* TRUE: the remote identifies messages by their content - creating (importing) a literal it already holds
+                       \* answers with the id of that message, and gluon adds the message it knows to the mailbox instead of
+                       \* creating one (a message that is in the mailbox already is removed there and added again: new UID)
           Record       \* TRUE: keep the behaviour (simulation)
 
 Rec == "Recovered Messages"
@@ -52,14 +55,23 @@ Init ==
   /\ steps = 0
   /\ hist = <<>>
 
-Listed(c) == c[Rec] # <<>>        \* the recovery mailbox is listed exactly while it is non-empty
+\* the recovery mailbox is listed exactly while it is non-empty - in the LIST of every session, whatever that session has
+\* selected and whatever it has been told so far (the harness asks the acting session and a second one that keeps the
+\* recovery mailbox selected and never sends a command that flushes)
+Listed(c) == c[Rec] # <<>>
 
 Log(act, args, fail, status) ==
   /\ last' = [act |-> act, args |-> args, fail |-> fail, status |-> status, listed |-> Listed(content')]
   /\ steps' = steps + 1
 
-AddTo(b, ls) ==     \* append literals ls (a sequence) to mailbox b
-  [content EXCEPT ![b] = @ \o [i \in 1..Len(ls) |-> [lit |-> ls[i], uid |-> uidNext[b] + i - 1]]]
+AddTo(b, ls) ==     \* append literals ls (a sequence of distinct literals when Dedup) to mailbox b
+  LET keep == IF Dedup THEN SelectSeq(content[b], LAMBDA e : e.lit \notin {ls[i] : i \in 1..Len(ls)}) ELSE content[b]
+  IN [content EXCEPT ![b] = keep \o [i \in 1..Len(ls) |-> [lit |-> ls[i], uid |-> uidNext[b] + i - 1]]]
+
+\* COPY / MOVE out of the recovery mailbox (actionAddRecoveredMessagesToMailbox): a message the destination holds already
+\* (only possible when the remote de-duplicates) stays as it is there - no new UID, no entry in COPYUID
+NewFor(d, ls) == IF Dedup THEN SelectSeq(ls, LAMBDA l : l \notin LitsOf(d)) ELSE ls
+AddOut(d, ls) == [content EXCEPT ![d] = @ \o [i \in 1..Len(NewFor(d, ls)) |-> [lit |-> NewFor(d, ls)[i], uid |-> uidNext[d] + i - 1]]]
 
 -----------------------------------------------------------------------------
 \* fail: "none", "create" (CreateMessage fails), "size" (the remote says the message is too large)
@@ -92,10 +104,10 @@ CopyOut(P, d, fail) ==
   /\ LET ps == AscSeq(P)
          ls == [i \in 1..Len(ps) |-> content[Rec][ps[i]].lit]
      IN IF fail = "none"
-        THEN /\ content' = AddTo(d, ls)
-             /\ uidNext' = [uidNext EXCEPT ![d] = @ + Len(ls)]
+        THEN /\ content' = AddOut(d, ls)
+             /\ uidNext' = [uidNext EXCEPT ![d] = @ + Len(NewFor(d, ls))]
              /\ UNCHANGED hashes
-             /\ Log("CopyOut", <<ps, d, [i \in 1..Len(ls) |-> uidNext[d] + i - 1]>>, fail, "OK")
+             /\ Log("CopyOut", <<ps, d, [i \in 1..Len(NewFor(d, ls)) |-> uidNext[d] + i - 1]>>, fail, "OK")
         ELSE /\ UNCHANGED <<content, uidNext, hashes>>
              /\ Log("CopyOut", <<ps, d, <<>>>>, fail, "NO")
 
@@ -106,10 +118,10 @@ MoveOut(P, d, fail) ==
   /\ LET ps == AscSeq(P)
          ls == [i \in 1..Len(ps) |-> content[Rec][ps[i]].lit]
      IN IF fail = "none"
-        THEN /\ content' = [AddTo(d, ls) EXCEPT ![Rec] = DropPositions(content[Rec], P)]
-             /\ uidNext' = [uidNext EXCEPT ![d] = @ + Len(ls)]
+        THEN /\ content' = [AddOut(d, ls) EXCEPT ![Rec] = DropPositions(content[Rec], P)]
+             /\ uidNext' = [uidNext EXCEPT ![d] = @ + Len(NewFor(d, ls))]
              /\ hashes' = hashes \ {ls[i] : i \in 1..Len(ls)}
-             /\ Log("MoveOut", <<ps, d, [i \in 1..Len(ls) |-> uidNext[d] + i - 1]>>, fail, "OK")
+             /\ Log("MoveOut", <<ps, d, [i \in 1..Len(NewFor(d, ls)) |-> uidNext[d] + i - 1]>>, fail, "OK")
         ELSE \* a refused MOVE changes nothing - in particular the hashes are still known
              /\ UNCHANGED <<content, uidNext, hashes>>
              /\ Log("MoveOut", <<ps, d, <<>>>>, fail, "NO")
@@ -183,6 +195,11 @@ RejectedMeansRecovered ==
 RefusedIsClean ==
   [][(last'.status = "NO" /\ ~(last'.act = "Append" /\ last'.fail = "create")) =>
         (content' = content /\ uidNext' = uidNext /\ hashes' = hashes)]_vars
+
+\* a message that left the recovery mailbox by an OK'd MOVE / COPY is in the destination (also when the remote de-duplicates)
+OutMeansPresent ==
+  [][(last'.act \in {"MoveOut", "CopyOut"} /\ last'.status = "OK" /\ steps < MaxSteps) =>
+        \A i \in 1..Len(last'.args[1]) : content[Rec][last'.args[1][i]].lit \in {content'[last'.args[2]][j].lit : j \in 1..Len(content'[last'.args[2]])}]_vars
 
 \* messages can be moved out: a MOVE without failure empties the positions it names
 CanMoveOut ==
